@@ -47,6 +47,21 @@ Definition sse_prims (p : profile) (b : packet) : list (string * (list vval -> o
    ("From::from", on1 (fun a => Some (Ok a)));
    ("as_i32", nn t32); ("as_i64", nn t64);
    ("sub_i64", on2 (fun a c => match a, c with XN x, XN y => Some (do r <- sub_i64 p x y ;; Ok (XN r)) | _, _ => None end));
+   (* finalize*: bool as 0/1; a local [u64; 2] / [u64; 4] as a tuple of integers; a store through a pointer to a local
+      (see veclite.rs, store) yields the local's new value — offset k is in units of __m128i, i.e. elements 2k, 2k+1;
+      any other shape (in particular an offset outside the array) has no meaning here and evaluates to Fault *)
+   ("buffer.is_empty", fun vs => match vs with [] => Some (Ok (XN (if is_empty b then 1 else 0))) | _ => None end);
+   ("not_bool", fun vs => match vs with [XN 0] => Some (Ok (XN 1)) | [XN 1] => Some (Ok (XN 0)) | _ => None end);
+   ("array_repeat", fun vs => match vs with
+                              | [XN v; XN 2] => Some (Ok (XT [XN v; XN v]))
+                              | [XN v; XN 4] => Some (Ok (XT [XN v; XN v; XN v; XN v]))
+                              | _ => None end);
+   ("_mm_storel_epi64", fun vs => match vs with [XN _; XN 0; X2 v] => Some (Ok (XN (t64 (fst v)))) | _ => None end);
+   ("_mm_storeu_si128", fun vs => match vs with
+                                  | [XT [_; _]; XN 0; X2 v] => Some (Ok (XT [XN (t64 (fst v)); XN (t64 (snd v))]))
+                                  | [XT [_; _; c; d]; XN 0; X2 v] => Some (Ok (XT [XN (t64 (fst v)); XN (t64 (snd v)); c; d]))
+                                  | [XT [a0; a1; _; _]; XN 1; X2 v] => Some (Ok (XT [a0; a1; XN (t64 (fst v)); XN (t64 (snd v))]))
+                                  | _ => None end);
    ("buffer.len", fun vs => match vs with [] => Some (Ok (XN (N.of_nat (plen b)))) | _ => None end);
    ("buffer.as_slice", fun vs => match vs with [] => Some (do sl <- as_slice p b ;; Ok (XB sl)) | _ => None end);
    ("SseHash::remainder", on1 (fun a => match a with
